@@ -108,6 +108,20 @@ ROUND3 = {
  "C18": "Also: identifiers whose domain is '[' or '[:port' as hostile field values.",
  "C19": "Answers that are not from the cache are checked too (expiry after the call, address never handed out before); a FetchKeys call that does not return is judged on goroutine states (all fetcher goroutines parked on channel operations, none in the key client = deadlock = violation), otherwise inconclusive.",
 }
+ROUND4 = {
+ "C02": "SignJSON on texts that are no JSON object (null, arrays, scalars): an error, or an output that verifies.",
+ "C04": "Texts that are not JSON (a member name without a value in front of a dropped or read member) must be refused.",
+ "C07": "Also: invites with \"third_party_invite\": null; third-party invites and restricted joins with the empty token (oracle abstains on the verdict, C09 checks it is one verdict).",
+ "C08": "Per-event-type entries are compared for both fallbacks (events_default as message event, state_default as state event).",
+ "C09": "Also: states holding a third-party-invite event under the empty state key together with member events naming the empty token.",
+ "C12": "Also: valid_until_ts in the upper half of the unsigned 64-bit range through CheckKeys.",
+ "C13": "Also: two X-Matrix lines for one key ID with different signatures (both orders).",
+ "C16": "Also: invalid server names with a userinfo part through the federation client APIs against a live loopback server; quoted Cache-Control arguments.",
+ "C18": "Also: request bodies whose event member is a JSON string holding hostile text (60 000 levels of nesting); a process-fatal crash of a shard's child is reported as fatal:<frame>.",
+ "C20": "Also: the server name carried in the token rewritten or removed and the token presented under the new name (same secret); the harness probes which root-key construction the library uses before re-minting."
+}
+for _k, _v in ROUND4.items():
+    ROUND3[_k] = (ROUND3.get(_k, "") + " " + _v).strip()
 for _k, _v in ROUND3.items():
     CLAIMS[_k]["note"] = CLAIMS[_k]["note"] + " " + _v
 
